@@ -70,6 +70,7 @@ type Row struct {
 	Cs     string
 	Cn     *int
 	Ct     *string
+	FK     int // foreign key of a related table's row (pseudo column "fk"), 0 = none
 }
 
 // Col returns the value of the named column and whether it is NULL.
@@ -77,6 +78,8 @@ func (r Row) Col(name string) (Val, bool) {
 	switch name {
 	case "id":
 		return IntV(r.ID), false
+	case "fk":
+		return IntV(r.FK), false
 	case "ca":
 		return IntV(r.Ca), false
 	case "cb":
